@@ -713,12 +713,22 @@ class ConfigInformation:
         if not self._validated:
             self._validated = True
 
+            def validate_value(value):
+                """Validate configurations, also within lists and dictionaries"""
+                if isinstance(value, Config):
+                    value.__xpm__.validate()
+                elif isinstance(value, list):
+                    for el in value:
+                        validate_value(el)
+                elif isinstance(value, dict):
+                    for el in value.values():
+                        validate_value(el)
+
             # Check each argument
             for k, argument in self.xpmtype.arguments.items():
                 value = self.values.get(k)
                 if value is not None:
-                    if isinstance(value, Config):
-                        value.__xpm__.validate()
+                    validate_value(value)
                 elif argument.required:
                     if not argument.generator:
                         raise ValueError(
